@@ -41,20 +41,21 @@ def scaleBar (b : Bar) (f : R) : Bar :=
            limitUp := b.limitUp * f, limitDown := b.limitDown * f, volume := b.volume * (1 / f) }
 
 /-- `adjust_bars(bars, ex_factors, fields=None, adjust_type, adjust_orig)`; `none` models an exception
-(empty factor table) -/
+(empty factor table).  The window comes back unchanged when EVERY bar's factor equals the base factor (repaired, finding F15:
+the code used to look at the first and the last bar only). -/
 def adjustBars (bars : List Bar) (facs : List (Nat × R)) (t : AdjustType) (orig : Nat) : Option (List Bar) :=
   match bars with
   | [] => some bars
-  | first :: _ =>
+  | _ :: _ =>
     let base? : Option R := match t with
       | .pre => factorForDate facs orig
       | _ => some 1
-    match base?, factorForDate facs first.dt, (bars.getLast?).bind (fun l => factorForDate facs l.dt) with
-    | some base, some fs, some fe =>
-      if fs == base && fe == base then some bars
+    match base?, bars.mapM (fun b => factorForDate facs b.dt) with
+    | some base, some fl =>
+      if fl.all (fun f => f == base) then some bars
       else
         bars.mapM (fun b => (factorForDate facs b.dt).map (fun f => scaleBar b (f / base)))
-    | _, _, _ => none
+    | _, _ => none
 
 /-- data-source level `history_bars` for frequency '1d' with all fields -/
 def historyBars (bars : List Bar) (isCS : Bool) (noAdjustType : Bool) (facs : Option (List (Nat × R)))
